@@ -8724,12 +8724,13 @@ fn u128_duration_nanos(nanos: u128) -> Duration {
 impl Deserialize for SystemTime {
     fn deserialize(deserializer: &mut Deserializer<impl Read>) -> Result<Self, SavefileError> {
         let mut temp = deserializer.read_u128()?;
-        if temp >= (1u128 << 127) {
+        let time = if temp >= (1u128 << 127) {
             temp &= (1u128 << 127) - 1; //Before UNIX Epoch
-            return Ok(SystemTime::UNIX_EPOCH - u128_duration_nanos(temp));
+            SystemTime::UNIX_EPOCH.checked_sub(u128_duration_nanos(temp))
         } else {
-            return Ok(SystemTime::UNIX_EPOCH + u128_duration_nanos(temp));
-        }
+            SystemTime::UNIX_EPOCH.checked_add(u128_duration_nanos(temp))
+        };
+        time.ok_or(SavefileError::TimestampOutOfRange)
     }
 }
 
